@@ -33,7 +33,7 @@ pub fn check(tier: Tier) -> Check {
             Stream::new("module", tier.pick(64, 640), |ctx, idx| {
                 c08::history_scenario(ctx, idx, "C10", "module", Focus::Status, 0)
             }),
-            Stream::new("node", tier.pick(96, 1500), |ctx, idx| contacts::scenario(ctx, idx, "C10", "node")),
+            Stream::new("node", tier.pick(288, 1500), |ctx, idx| contacts::scenario(ctx, idx, "C10", "node")),
         ],
         require: vec![
             ("status_comparisons", tier.pick(1_000_000, 50_000_000)),
@@ -41,10 +41,10 @@ pub fn check(tier: Tier) -> Check {
             ("transition Questionable->Bad by second unanswered query", tier.pick(5_000, 250_000)),
             ("transition Questionable->Good by query from it", tier.pick(5_000, 250_000)),
             ("transition Questionable->Good by answer", tier.pick(10_000, 500_000)),
-            ("node_samples_checked", tier.pick(100_000, 2_000_000)),
-            ("node_must_be_good_checks", tier.pick(20_000, 400_000)),
-            ("node_must_not_be_good_checks", tier.pick(5_000, 100_000)),
-            ("node_dropped_contact_checks", tier.pick(500, 10_000)),
+            ("node_samples_checked", tier.pick(300_000, 2_000_000)),
+            ("node_must_be_good_checks", tier.pick(60_000, 400_000)),
+            ("node_must_not_be_good_checks", tier.pick(15_000, 100_000)),
+            ("node_dropped_contact_checks", tier.pick(1_500, 10_000)),
         ],
         exhaustive: false,
     }
